@@ -4,6 +4,7 @@ CONSTANTS
  Cap <- CapSmall
  HasArray <- ArrAll
  FbHasTryAllocArray = TRUE
+ SegByTotal = TRUE
  MaxLive = 3
 INVARIANT ReleasedAsAllocated
 INVARIANT UsedWithinCapacity
